@@ -7,6 +7,8 @@ import (
 	"crypto/rand"
 	"encoding/json"
 	"fmt"
+	"github.com/gofrs/uuid"
+	"net"
 	"net/http"
 	"os"
 	"path/filepath"
@@ -194,6 +196,9 @@ func NewEnv(seed uint64, tmp string) *Env {
 	e.Net = simnet.New(seed)
 	simrt.SeedMaps(seed)
 	rand.Reader = simrt.NewRand(seed ^ 0x63727970746f)
+	// gofrs/uuid captured crypto/rand.Reader and the host's MAC address at package init
+	uuid.DefaultGenerator = uuid.NewGenWithOptions(uuid.WithRandomReader(simrt.NewRand(seed^0x75756964)),
+		uuid.WithHWAddrFunc(func() (net.HardwareAddr, error) { return net.HardwareAddr{2, 0, 0, 0, 0, 1}, nil }))
 	http.DefaultTransport = &http.Transport{DialContext: simnet.DialContextFunc, DisableKeepAlives: true}
 	return e
 }
